@@ -54,6 +54,16 @@ func (k kind) class() string {
 	return string(k)
 }
 
+// sigClass is the coarser class used where a signature names the kinds on both sides of a
+// mismatch or of an overwrite: void, slice (uint32 set) or scalar (everything else).
+func (k kind) sigClass() string {
+	switch k {
+	case kVoid, kSlice:
+		return string(k)
+	}
+	return "scalar"
+}
+
 // value is one typed treasure value. Exactly the field that belongs to K is meaningful.
 type value struct {
 	K kind     `json:"k"`
